@@ -14,13 +14,13 @@ variable (scripts : List (List Op)) (sched : List Nat)
 theorem fifo_no_loss :
     enqs (run (init scripts) sched).hist =
       gots (run (init scripts) sched).hist ++ (run (init scripts) sched).queue :=
-  Proofs.sq_fifo_no_loss scripts sched
+  ProofsSQ.sq_fifo_no_loss scripts sched
 
 /-- the unlocked `_last_item` always denotes the most recently enqueued item while it is still
     waiting in the queue, and nothing otherwise -/
 theorem last_is_pending_tail (h : distinctPuts scripts) :
     (run (init scripts) sched).last = (run (init scripts) sched).queue.getLast? :=
-  Proofs.sq_last_is_tail scripts sched h
+  ProofsSQ.sq_last_is_tail scripts sched h
 
 /-- an offered item is dropped only if, at the moment of its check, it is equal to the item enqueued
     immediately before — the tail of the queue — and that one is still waiting to be consumed -/
@@ -29,13 +29,13 @@ theorem only_duplicates_dropped (h : distinctPuts scripts) (tid : Nat) (s' : Sta
     (hd : s'.hist = (run (init scripts) sched).hist ++ [.dropped tid x y]) :
     x.val = y.val ∧ (run (init scripts) sched).queue.getLast? = some y ∧
       (enqs (run (init scripts) sched).hist).getLast? = some y :=
-  Proofs.sq_only_duplicates_dropped scripts sched h tid s' x y hs hd
+  ProofsSQ.sq_only_duplicates_dropped scripts sched h tid s' x y hs hd
 
 /-- every recorded drop was against an equal item that had really been enqueued -/
 theorem dropped_equal (h : distinctPuts scripts) (tid : Nat) (x y : Item)
     (hd : Obs.dropped tid x y ∈ (run (init scripts) sched).hist) :
     x.val = y.val ∧ y ∈ enqs (run (init scripts) sched).hist :=
-  Proofs.sq_dropped_equal scripts sched h tid x y hd
+  ProofsSQ.sq_dropped_equal scripts sched h tid x y hd
 
 /-- once the equal item has been taken out (here: the queue is empty), an equal item is accepted
     again: a `put` that starts now goes to the locked append, whatever it equals -/
@@ -43,7 +43,7 @@ theorem accepted_after_get (h : distinctPuts scripts) (tid : Nat) (t : Thread) (
     (ht : (run (init scripts) sched).thread? tid = some t) (hpc : t.pc = .putRead1 x)
     (hq : (run (init scripts) sched).queue = []) :
     ∃ s1 t1, step (run (init scripts) sched) tid = some s1 ∧ s1.thread? tid = some t1 ∧ t1.pc = .putAcq x :=
-  Proofs.sq_accepted_after_get scripts sched h tid t x ht hpc hq
+  ProofsSQ.sq_accepted_after_get scripts sched h tid t x ht hpc hq
 
 /-- equal items separated by a different item are both delivered: an item that differs from the
     pending tail is never dropped -/
@@ -51,13 +51,13 @@ theorem separated_both_delivered (h : distinctPuts scripts) (tid : Nat) (t : Thr
     (ht : (run (init scripts) sched).thread? tid = some t) (hpc : t.pc = .putRead2 x)
     (hq : (run (init scripts) sched).queue.getLast? = some y) (hne : x.val ≠ y.val) :
     ∃ s1 t1, step (run (init scripts) sched) tid = some s1 ∧ s1.thread? tid = some t1 ∧ t1.pc = .putAcq x :=
-  Proofs.sq_separated scripts sched h tid t x y ht hpc hq hne
+  ProofsSQ.sq_separated scripts sched h tid t x y ht hpc hq hne
 
 /-- the locked append always enqueues -/
 theorem append_enqueues (tid : Nat) (t : Thread) (x : Item) (s : State)
     (ht : s.thread? tid = some t) (hpc : t.pc = .putAcq x) :
     ∃ s1, step s tid = some s1 ∧ s1.queue = s.queue ++ [x] ∧ s1.hist = s.hist ++ [.enq tid x] :=
-  Proofs.sq_append_enqueues tid t x s ht hpc
+  ProofsSQ.sq_append_enqueues tid t x s ht hpc
 
 /-- two events are equal only if they have the same class and the same field values -/
 theorem event_eq (a b : WD.Event) :
